@@ -201,8 +201,14 @@ func TestC39Messages(t *testing.T) {
 		id := 1 + rapid.IntRange(0, 1000).Draw(t, "minID")
 		date := 1_600_000_000
 		asc := make([]c39Msg, n)
+		// Imported and scheduled-then-sent messages carry dates that disagree with the id
+		// order; the server pages a history by id (seeded change C39d sorts pages by date).
+		scrambled := rapid.IntRange(0, 3).Draw(t, "scrambledDates") == 0
 		for i := 0; i < n; i++ {
 			asc[i] = c39Msg{ID: id, Date: date, Service: noise[3*i+2]%8 == 0}
+			if scrambled {
+				asc[i].Date = 1_600_000_000 + int(noise[3*i+1])*37%1000
+			}
 			id += 1 + int(noise[3*i]%4)
 			date += int(noise[3*i+1] % 3)
 		}
